@@ -852,6 +852,13 @@ Hdupdd(int32  file_id, /* IN: File ID the tag/refs are in */
     if ((old_dd = HTPselect(file_rec, old_tag, old_ref)) == FAIL)
         HGOTO_ERROR(DFE_NOMATCH, FAIL);
 
+    /* The duplicate of a special element has to be a special element too: its offset
+       and length describe the special-element header, not the data */
+    if (HTPis_special(old_dd) == TRUE && !SPECIALTAG(tag)) {
+        if ((tag = MKSPECIALTAG(tag)) == DFTAG_NULL)
+            HGOTO_ERROR(DFE_ARGS, FAIL);
+    }
+
     /* Create the new DD in the file */
     if ((new_dd = HTPcreate(file_rec, tag, ref)) == FAIL)
         HGOTO_ERROR(DFE_DUPDD, FAIL);
